@@ -45,6 +45,10 @@ type Scenario struct {
 	// ClientTimeoutMs > 0 gives the HTTP client a (short, real) timeout so that
 	// a responder that never answers ends in a genuine client timeout.
 	ClientTimeoutMs int
+	// DeadlineMs > 0 runs the call under a context with that (short, real)
+	// deadline: a responder that never answers then ends with the CALLER's
+	// context done, not with a client timeout
+	DeadlineMs int
 }
 
 // Desc is a compact descriptor for hashing / samples.
@@ -56,6 +60,9 @@ func (sc *Scenario) Desc() string {
 	}
 	if sc.STOutside {
 		b.WriteString(" signing-time-outside-validity")
+	}
+	if sc.DeadlineMs > 0 {
+		fmt.Fprintf(&b, " context-deadline=%dms", sc.DeadlineMs)
 	}
 	for i, p := range sc.Plans {
 		fmt.Fprintf(&b, " | c%d o=%v/%v d=%v/%v", i, p.Shape.OCSP, p.OCSP, p.Shape.CRL, p.CRL)
@@ -290,6 +297,11 @@ func (env *Env) Run(ctx context.Context) *Outcome {
 		k.mu.Lock()
 		bad0 += k.BadRequests
 		k.mu.Unlock()
+	}
+	if sc.DeadlineMs > 0 {
+		var cancel context.CancelFunc
+		ctx, cancel = context.WithTimeout(ctx, time.Duration(sc.DeadlineMs)*time.Millisecond)
+		defer cancel()
 	}
 	// the call runs on a goroutine of its own so that a call that never returns
 	// ends this execution (as Stuck) instead of the whole check
